@@ -23,7 +23,9 @@ REQUIRED_THEOREMS = ["Clikit.Props.C09." + n for n in (
     "io_depends_on_membership", "verbosity_monotone_output", "io_only_option_tokens", "io_tail_irrelevant",
     # end to end, on the composed model of a whole run (Model/App.lean), compared with the real run by c09.app_run
     "app_io_is_switches", "app_help_switch", "app_version_switch", "app_help_command",
-    "app_switches_after_dashes_inert")]
+    "app_switches_after_dashes_inert",
+    # lenient commands: a surplus argument is skipped with the parser state unchanged (switches behind it act as without it)
+    "parseArgument_surplus", "step_surplus", "lenient_surplus_skipped", "lenient_surplus_run_skipped")]
 TECHNIQUE = ("Lean 4 theorems about the switch decisions translated from DefaultApplicationConfig.create_io / "
              "resolve_help_command / print_version on every run (py-AST -> Lean), composed with the C08/C10/C04 results + "
              "differential runs of the real default application with switches inserted at every admissible position")
@@ -45,7 +47,12 @@ LEVEL_TEXT = ("The decisions of create_io (ANSI mode, verbosity, quiet, interact
               "shows the version, status 0, no handler (app_version_switch); a line resolving to the help command shows "
               "helpTarget's page (app_help_command); tokens after `--` change neither the I/O configuration nor the help "
               "listener's decision, and for every args format the options set by the parse - hence whether the version option "
-              "is set - do not depend on them (app_switches_after_dashes_inert, via a frame property of the token loop). The "
+              "is set - do not depend on them (app_switches_after_dashes_inert, via a frame property of the token loop). "
+              "LENIENT COMMANDS (enable_lenient_args_parsing): when every argument slot of the format is taken and the last "
+              "argument is single-valued, a further word is a surplus argument - the parser model's token loop skips it, and "
+              "any run of such words, with its state unchanged and parses the rest of the line as if they were not there, so "
+              "every switch behind a surplus argument is read as without it (lenient_surplus_skipped, "
+              "lenient_surplus_run_skipped, for ALL formats, states and rests of the line). The "
               "composed model is compared with the REAL run on every case (c09.app_run): I/O configuration (of create_io and of "
               "the io object the run carried), the command and args resolve_command selects (incl. the lenient parse of the "
               "help command) or the class of its exception, which handler ran with which set arguments/options, help page "
@@ -57,7 +64,10 @@ LEVEL_NOTE = ("Trusted: Lean kernel + standard axioms; tools/genparts/c09.py (AS
               "(`auto` mode is exercised with fake streams that claim ANSI support).")
 RULE = ("generated trees on DefaultApplicationConfig x 1 valid line x switch multisets (1-3 switches of the 11 spellings) at "
         "random admissible positions, or all after `--`; handler writes at 4 verbosities to both streams, asks a question, "
-        "optionally raises; non-trivial = at least one switch before `--`; distinct = (tree, tokens)")
+        "optionally raises; a quarter of the lines are for a command configured with enable_lenient_args_parsing(): every "
+        "argument has a value and 1-3 SURPLUS arguments follow (legal there; further values when the last argument is "
+        "multi-valued), with the switches half of the time behind the first surplus argument (between them / at the end of "
+        "the line); non-trivial = at least one switch before `--`; distinct = (tree, tokens)")
 TRUSTED_BASE = [
     "Lean 4.33 kernel; axioms within propext, Classical.choice, Quot.sound (audited per theorem on every run)",
     "tools/genparts/c09.py: translation of the decision structure of create_io / resolve_help_command / print_version",
@@ -69,6 +79,8 @@ TRUSTED_BASE = [
     "SUBCLASSES of HelpTextHandler / HelpResolver set as the help command's handler (they only delegate to the real methods)",
 ]
 ASSUMPTIONS = [
+    "a valid line for a command with lenient args parsing may carry surplus arguments (they are skipped): the switches "
+    "behind them must act as anywhere else; surplus arguments are words that name no command of the generated trees",
     "switches are inserted at item boundaries (never between an option and its separate value); `-v` is an optional-value option, so a following positional is consumed - the I/O effect is the same, the command's arguments are not",
     "real TTY capability detection is outside; `auto` is exercised with streams that report ANSI support",
     "the theorems have no hypothesis about real objects: the only inputs of the model are the tokens; that the list "
@@ -92,10 +104,13 @@ SWITCHES = ["--quiet", "-q", "-v", "-vv", "-vvv", "--ansi", "--no-ansi", "--no-i
 OPTS = [[("force", "f"), ("wide", "w")], [("bar", "b"), ("count", "c")], [("extra", "x"), ("opt", "o")]]
 
 
-def _valid_line(rng, tree):
+SURPLUS = ["extra", "more", "x1", "9", "left-over", "add.txt"]      # never a command name or alias of the trees
+
+
+def _valid_line(rng, tree, want_target=False):
     cmds = [c for c in ac.enabled(tree["commands"]) if not c["anonymous"]]
     if not cmds:
-        return None, None
+        return (None, None, None) if want_target else (None, None)
     node = rng.choice(cmds)
     path = [node["name"]]
     while True:
@@ -114,7 +129,27 @@ def _valid_line(rng, tree):
     for a in args[:rng.randint(n_req, len(args))]:
         v = pc.value_for(rng, a["type"], a["nullable"])
         vals.append(v if not v.startswith("-") and v != "" else "x")
+    if want_target:
+        return path, vals, target
     return path, vals
+
+
+def _surplus(rng, target, vals):
+    """LENIENT command + surplus arguments: the command the line is meant for is configured with
+    `enable_lenient_args_parsing()` (a public option of every command config), every argument of it gets a value and
+    one to three more arguments follow - legal on such a command, they are skipped.  The line is still a valid line."""
+    target["lenient"] = True
+    vals = list(vals)
+    for a in target["args"][len(vals):]:
+        v = pc.value_for(rng, a["type"], a["nullable"])
+        vals.append(v if not v.startswith("-") and v != "" else "x")
+    n = rng.randint(1, 3)
+    last = target["args"][-1] if target["args"] else None
+    if last is not None and last["mode"] in ("multi", "multi_required"):
+        # a multi-valued last argument takes every further token: they are values of its type, never surplus
+        more = [pc.value_for(rng, last["type"], last["nullable"]) for _ in range(n)]
+        return vals, [v if not v.startswith("-") and v != "" else "x" for v in more]
+    return vals, [rng.choice(SURPLUS) for _ in range(n)]
 
 
 def _path_opts(tree, path):
@@ -161,11 +196,14 @@ def generate(tier, rng):
     while k < n:
         tree = ac.gen_tree(rng, opts_by_depth=OPTS)
         tree["global_flag"] = False
-        path, vals = _valid_line(rng, tree)
+        path, vals, target = _valid_line(rng, tree, True)
         if path is None:
             continue
         k += 1
-        base = path + vals
+        surplus = []
+        if rng.random() < 0.25:
+            vals, surplus = _surplus(rng, target, vals)
+        base = path + vals + surplus
         sw = [rng.choice(SWITCHES) for _ in range(rng.randint(1, 3))]
         after = rng.random() < 0.2
         if after:
@@ -177,10 +215,16 @@ def generate(tier, rng):
             for s in sw:
                 # after the command path, at an item boundary
                 pos = rng.randint(len(path), len(tokens)) if rng.random() < 0.85 else rng.randint(0, len(tokens))
+                if surplus and rng.random() < 0.5:
+                    # behind the first surplus argument (between the surplus arguments or at the end of the line)
+                    pos = rng.randint(min(len(path) + len(vals) + 1, len(tokens)), len(tokens))
                 tokens.insert(pos, s)
         tokens = _add_command_options(k, tree, path, tokens)
-        yield {"tree": tree, "path": path, "tokens": tokens, "switches": sw, "after": after,
-               "raises": rng.random() < 0.2, "debug_cfg": False}
+        case = {"tree": tree, "path": path, "tokens": tokens, "switches": sw, "after": after,
+                "raises": rng.random() < 0.2, "debug_cfg": False}
+        if surplus:
+            case["surplus"] = surplus
+        yield case
 
 
 def exhaustive(tier):
@@ -519,7 +563,10 @@ def nontrivial_key(case, obs):
 
 
 def bucket(case, obs):
-    return "%s|%s|status=%s|handler=%d" % ("after" if case["after"] else "before", "+".join(sorted(set(case["switches"]))),
+    where = "after" if case["after"] else "before"
+    if case.get("surplus"):
+        where += "+lenient-surplus"
+    return "%s|%s|status=%s|handler=%d" % (where, "+".join(sorted(set(case["switches"]))),
                                            obs["status"], len(obs["records"]))
 
 
